@@ -14,7 +14,6 @@ from ..astutil import U, assignments, calls, callee_name, const_str, own_walk, r
 from ..kernelir import IndexSet, KInterp, PyVal, Unsupported
 from ..pathcond import parents, path_condition
 from ..source import AnalysisError
-from ..segments import canonical_bsm
 
 DC = "pandapipes.pf.derivative_calculation"
 RE = "pandapipes.pf.result_extraction"
@@ -267,76 +266,99 @@ def internal_data_lifecycle(run):
                "%s pops net['_internal_data'] when reuse_internal_data is off" % name, run.where(g, g.node))
 
 
+def _mentions(t, const):
+    from ..arrnf import walk
+    return any(x == ("c", const) for x in walk(t))
+
+
+def _event_terms(e):
+    out = [c for c, _ in e.cond]
+    for a in ("base", "value", "term", "target_term"):
+        v = getattr(e, a, None)
+        if isinstance(v, tuple):
+            out.append(v)
+    if getattr(e, "index", None):
+        out.extend(e.index)
+    return out
+
+
 def r7_3(run):
+    """the cached sparse structure, on the term model of the assembler (ppsa/bsm.py): no names or statement layout involved"""
+    from ..bsm import Model, strip_int_casts
+    from ..arrnf import base_of, key as tkey, norm_cond, show as tshow, walk
     ix = run.index
-    f = canonical_bsm(ix)
+    mh = Model(ix, False)
+    mt = Model(ix, True)
+    f = mh.f
     run.analysed(f)
-    mi = ix.module(BSM)
-    par = parents(f.node)
-    # (a) structure arrays: right-hand sides of system_rows/system_cols stores and the sort order
-    seeds = set()
-    for n in own_walk(f.node):
-        if isinstance(n, ast.Assign) and isinstance(n.targets[0], ast.Subscript) \
-                and U(n.targets[0].value) in ("system_cols", "system_rows"):
-            for x in ast.walk(n.value):
-                if isinstance(x, ast.Name):
-                    seeds.add(x.id)
-            for x in ast.walk(n.targets[0].slice):
-                if isinstance(x, ast.Name):
-                    seeds.add(x.id)
-    names = _backward_slice_names(f.node, seeds)
+    w = run.where(f, f.node)
+    # (a) structure arrays: everything the row / column triplets and their bounds are computed from
     cols = set()
-    for nm in names:
-        imp = mi.imports.get(nm)
-        if imp and imp[0] == "attr" and imp[1] in ("pandapipes.idx_branch", "pandapipes.idx_node"):
-            cols.add(imp[2])
+    for m_ in (mh, mt):
+        for seg in m_.cols + m_.rows:
+            for t in (seg.value,) + tuple(seg.index):
+                for x in walk(t):
+                    if x[0] == "k" and x[1].startswith(("idx_branch.", "idx_node.")):
+                        cols.add(x[1].split(".")[-1])
     type_consts = {"P", "PC", "T", "L", "GE"}
     value_cols = sorted(c for c in cols if c not in TOPOLOGY_COLS and c not in type_consts)
     run.ob("structure-slice-reads-only-topology", not value_cols and len(cols) >= 4,
-           "rows/cols of the sparse matrix depend only on topology/type columns (slice reads %s)" % sorted(cols),
-           run.where(f, f.node), detail="value columns in the slice: %s" % value_cols if value_cols else None)
-    # (b) every access of the cache is restricted to the hydraulic system (not heat_mode)
-    n_acc = 0
-    for n in ast.walk(f.node):
-        if isinstance(n, ast.Subscript) and U(n.value) == "net" and const_str(n.slice) == "_internal_data":
-            n_acc += 1
-            pc = path_condition(f.node, n, par)
-            ok = ("heat_mode", False) in pc
-            outer = par.get(n)
-            what = U(outer)[:60] if outer is not None else U(n)
-            run.ob("cache-access-hydraulic-only|%s" % what, ok,
-                   "net['_internal_data'] is accessed only when heat_mode is False", run.where(f, n),
-                   detail="path condition: %s" % sorted(pc))
-    run.ob("cache-accesses-found", n_acc >= 4, "build_system_matrix accesses the cache (%d sites)" % n_acc,
-           run.where(f, f.node))
+           "rows/cols of the sparse matrix depend only on topology/type columns (their terms read %s)" % sorted(cols), w,
+           detail="value columns in the slice: %s" % value_cols if value_cols else None)
+    # (b) every access of the cache is restricted to the hydraulic system: the thermal specialisation contains none
+    def accesses(m_):
+        return [e for e in m_.r.events if any(_mentions(t, "_internal_data") for t in _event_terms(e))]
+    acc_t = accesses(mt)
+    for e in acc_t[:5]:
+        run.ob("cache-access-hydraulic-only|%s" % e.kind, False, "net['_internal_data'] is accessed only when heat_mode is False",
+               run.where(f, e.node), detail="reached with heat_mode=True")
+    run.ob("cache-access-hydraulic-only", not acc_t,
+           "the specialisation of build_system_matrix for heat_mode=True never touches net['_internal_data']", w)
+    acc_h = accesses(mh)
+    run.ob("cache-accesses-found", len(acc_h) >= 3, "build_system_matrix accesses the cache (%d events in the hydraulic specialisation)" % len(acc_h), w)
     # (c) cache written only under the update option
-    for n in own_walk(f.node):
-        if isinstance(n, ast.Assign) and isinstance(n.targets[0], ast.Subscript) \
-                and U(n.targets[0].value).replace('"', "'") == "net['_internal_data']":
-            pc = path_condition(f.node, n, par)
-            run.ob("cache-write-under-update-option|%s" % const_str(n.targets[0].slice),
-                   any(l[0].startswith("get_net_option(net, 'only_update_hydraulic_matrix')".replace("'", '"'))
-                       or "only_update_hydraulic_matrix" in l[0] for l in pc if l[1]),
-                   "the cache entry is written only when only_update_hydraulic_matrix is set", run.where(f, n),
-                   detail="path condition: %s" % sorted(pc))
-    # (d) system_data and load_vector are computed before/independently of the update_only split
-    split = [n for n in own_walk(f.node) if isinstance(n, ast.If) and U(n.test) in ("not update_only",)]
-    run.ob("single-update-split", len(split) == 1, "one `if not update_only` split", run.where(f, f.node))
-    if split:
-        sp = split[0]
-        data_stores = [n for n in own_walk(f.node) if isinstance(n, ast.Assign) and isinstance(n.targets[0], ast.Subscript)
-                       and U(n.targets[0].value) == "system_data"]
-        inside = [n for n in data_stores if any(n is x for x in ast.walk(sp))]
-        run.ob("system-data-recomputed-on-both-arms", len(data_stores) >= 15 and not inside,
-               "all %d system_data segment stores precede the update_only split" % len(data_stores), run.where(f, sp))
-        lv = [n for n in own_walk(f.node) if isinstance(n, ast.Assign) and U(n.targets[0]) == "load_vector"]
-        run.ob("load-vector-recomputed-on-both-arms", len(lv) == 2 and all(not any(n is x for x in ast.walk(sp)) for n in lv),
-               "load_vector is rebuilt after the split on every path", run.where(f, sp))
-        # on the reuse arm the data is re-sorted with the stored order and written into the stored matrix
-        reuse = sp.orelse
-        srcs = [U(s) for s in reuse]
-        ok = any("system_data[data_order]" in s for s in srcs) and any(s.startswith("system_matrix.data = system_data") for s in srcs)
-        run.ob("reuse-arm-reorders-data", ok, "the reuse arm applies the stored ordering to the fresh data", run.where(f, sp))
+    def is_opt(t):
+        return any(x[0] == "call" and x[1][0] == "f" and x[1][1].endswith(".get_net_option") and len(x[2]) == 2
+                   and x[2][1] == ("c", "only_update_hydraulic_matrix") for x in walk(t))
+    writes = [e for e in mh.r.stores() if _mentions(e.base, "_internal_data") and e.index and e.index[0][0] == "c"
+              and not str(e.index[0][1]).startswith(".")]
+    for e in writes:
+        ok = any(is_opt(c) and norm_cond(c, pol)[1] for c, pol in e.cond)
+        run.ob("cache-write-under-update-option|%s" % e.index[0][1], ok,
+               "the cache entry is written only when only_update_hydraulic_matrix is set", run.where(f, e.node),
+               detail="path condition: %s" % [(tshow(c)[:60], p_) for c, p_ in e.cond])
+    run.ob("cache-writes-found", {e.index[0][1] for e in writes} >= {"hydraulic_data_sorting", "hydraulic_matrix"},
+           "the sort order and the matrix are stored in the cache", w)
+    # (d) values are recomputed on both arms: the reuse arm writes the *fresh* data, in the stored order, into the stored matrix
+    D = mh.csr.args[0][1][0]
+    reuse = [e for e in mh.r.stores() if e.index == (("c", ".data"),)]
+    ok = len(reuse) == 1
+    if ok:
+        v = reuse[0].value
+        cache = lambda k_: ("idx", ("idx", ("n", "net"), (("c", "_internal_data"),)), (("c", k_),))
+        ok = v[0] == "idx" and len(v[2]) == 1 and tkey(v[1]) == tkey(D) and tkey(v[2][0]) == tkey(cache("hydraulic_data_sorting")) \
+            and tkey(reuse[0].base) == tkey(cache("hydraulic_matrix"))
+    run.ob("reuse-arm-reorders-data", ok,
+           "the reuse arm writes the freshly assembled data, permuted with the stored ordering, into the stored matrix", w,
+           detail=tshow(reuse[0].value)[:160] if reuse else None)
+    run.ob("system-data-recomputed-on-both-arms", ok and len(mh.data) >= 9,
+           "the data written on the reuse arm is the same %d-segment array the fresh arm assembles" % len(mh.data), w)
+    # what is cached is the order that was applied to the stored matrix
+    srt = [e for e in writes if e.index[0][1] == "hydraulic_data_sorting"]
+    mat = [e for e in writes if e.index[0][1] == "hydraulic_matrix"]
+    ok = len(srt) == 1 and len(mat) == 1 and srt[0].value[0] == "call" and srt[0].value[1] == ("x", "numpy.lexsort")
+    if ok:
+        order = srt[0].value
+        mv = mat[0].value
+        ok = mv[0] == "call" and mv[1][0] == "x" and mv[1][1].endswith("csr_matrix") and mv[2] and mv[2][0][0] == "tuple" \
+            and tkey(mv[2][0][1][0]) == tkey(("idx", D, (order,)))
+    run.ob("cached-order-is-the-applied-order", ok,
+           "the stored matrix holds the data permuted by exactly the lexsort order that is stored next to it", w)
+    ent = mh.load_entries()
+    lv_cond = [e for e in mh.r.stores() if tkey(base_of(e.base)) in {tkey(base_of(x.base)) for x in mh.r.stores() if x.seq in {y["seq"] for y in ent}}
+               and any(_mentions(c, "_internal_data") or is_opt(c) for c, _ in e.cond)]
+    run.ob("load-vector-recomputed-on-both-arms", len(ent) >= 8 and not lv_cond,
+           "the %d load-vector stores do not depend on the cache or the update option" % len(ent), w)
     # (e) stage functions drop internal data unless reuse requested
     internal_data_lifecycle(run)
     # (f) init_options couples reuse to the update option
